@@ -397,6 +397,7 @@ func TestRace(t *testing.T) {
 	rng := rand.New(rand.NewSource(s.Seed*6151 + int64(s.Shard)))
 	workloads := []string{"sql", "txn", "mixed", "index:" + dbh.IdxSkip, "mixed", "index:" + dbh.IdxUniqSkip, "sql", "index:" + dbh.IdxBtree, "mixed", "index:" + dbh.IdxHash}
 	runs := s.Pick(8, 40)
+	hangs := 0
 	for i := 0; i < runs; i++ {
 		c := &Case{Workload: workloads[(i*4+s.Shard)%len(workloads)], Clients: 4 + rng.Intn(9), Ops: s.Pick(60, 150), KB: []int{160, 240, 800}[rng.Intn(3)], File: s.Shard%3 == 0, Seed: rng.Int63()}
 		if strings.HasPrefix(c.Workload, "index:") {
@@ -427,8 +428,12 @@ func TestRace(t *testing.T) {
 			// a panic inside the engine under concurrency: reported with its class (other properties own the semantics)
 			s.Class("workload-failure:"+f.Class, 1)
 		}
-		if f != nil && f.Class == "workload-hang" {
+		if f != nil && (f.Class == "workload-hang" || f.Class == "hang") {
 			s.Inconclusive(f.Msg)
+			hangs++
+			if hangs >= 2 {
+				break // stuck goroutines stay behind; the reports collected so far are still evaluated below
+			}
 		}
 	}
 	// collect the race detector's reports written by this process
